@@ -221,6 +221,12 @@ impl<S: Storage> Builder<S> {
                 let columns = (self.node(list).as_list().iter())
                     .map(|id| self.node(*id).as_column())
                     .collect_vec();
+                // the range condition may have been simplified to a constant that selects nothing,
+                // e.g. `a > 5 and a < 3` to `false`: then there is no key range for the storage
+                let selects_nothing = matches!(
+                    self.node(filter),
+                    Constant(crate::types::DataValue::Bool(false) | crate::types::DataValue::Null)
+                );
                 // analyze range filter
                 let filter = {
                     use std::ops::Bound;
@@ -241,7 +247,9 @@ impl<S: Storage> Builder<S> {
                     }
                 };
 
-                if let Some(subscriber) = self.views.get(&table_id) {
+                if selects_nothing {
+                    futures::stream::empty().boxed()
+                } else if let Some(subscriber) = self.views.get(&table_id) {
                     // scan a view
                     assert!(
                         filter.is_none(),
